@@ -865,8 +865,15 @@ func (c *Cursor) Forward(ctx context.Context) error {
 			return fmt.Errorf("load: %w", err)
 		}
 		pe.linkIndex++
+		depth := len(c.path)
 		c.path = append(c.path, pathEntry{node: node})
-		return c.Min(ctx)
+		err = c.Min(ctx)
+		if err != nil {
+			// leave the cursor where it stood, so that the call can be retried
+			c.path = c.path[:depth]
+			c.path[depth-1].linkIndex--
+		}
+		return err
 	} else {
 		if pe.linkIndex+1 < len(node.Key) {
 			pe.linkIndex++
@@ -897,8 +904,14 @@ func (c *Cursor) Backward(ctx context.Context) error {
 		if err != nil {
 			return fmt.Errorf("load: %w", err)
 		}
+		depth := len(c.path)
 		c.path = append(c.path, pathEntry{node: node})
-		return c.Max(ctx)
+		err = c.Max(ctx)
+		if err != nil {
+			// leave the cursor where it stood, so that the call can be retried
+			c.path = c.path[:depth]
+		}
+		return err
 	} else {
 		if pe.linkIndex > 0 {
 			pe.linkIndex--
